@@ -1,6 +1,6 @@
 (* C13 (and C12) -- executable model of gomacro's statement executor:
      fast/code.go   exec, execWithFlags, reExecWithFlags, spinInterrupt, applyAsyncSignal, restore,
-                    pushDefer, popDefer, rundefer, maybeRepanic, Run.interrupt
+                    pushDefer, popDefer, rundefer (with its deferred restorePanic, fix C07-1), maybeRepanic, Run.interrupt
      fast/repl.go   Interp.RunExpr (applyDebugOp(DebugOpContinue), deferred setCurrEnv), prepareEnv (signals cleared)
      fast/compile.go newEnv4Func / freeEnv4Func (Run.CurrEnv), fast/builtin.go callRecover,
      fast/statement.go Defer (SigDefer), stmtReturn (SigReturn), fast/func0ret0.go (nop function, call wrapper).
@@ -246,7 +246,10 @@ Definition call_recover (r : run) : bool * run :=
 Definition pop_defer (saved_dof : option nat) (saved_isdefer : bool) (r : run) : run :=
   set_ef_defer saved_isdefer (set_ef_start false (set_defer_of saved_dof r)).
 
-(* restore(run, funenv, isDefer, interrupt, caller) without its final applyAsyncSignal; fx = the fix C12-1 is present *)
+(* restore(run, funenv, isDefer, interrupt, caller) without its final applyAsyncSignal.
+   fx = true: the code as it is now, with the fixes C12-1 (restore forgets the panic of the exiting function) and C07-1
+   (rundefer reinstates Run.Panic / Run.PanicFun on exit: deferred restorePanic); fx = false: the code before both fixes
+   (only used for the refutation witnesses) *)
 Definition restore_run (fx : bool) (fs : fstate) (r : run) : run :=
   let r1 := set_sync SNone (set_curr (fs_sv_curr fs) (set_intr (fs_sv_intr fs) (set_ef_defer (fs_sv_isdefer fs) r))) in
   if fx then
@@ -414,13 +417,17 @@ Fixpoint go (fuel : nat) (P : prog) (fx : bool) (t : task) (g : glob) : outcome 
             (* rundefer(fun) *)
             let saved_dof := defer_of (rn g) in
             let saved_isdefer := ef_defer (rn g) in
+            let saved_pv := panicv (rn g) in
+            let saved_pf := panic_fun (rn g) in
             let '(pk1, g2) := rundefer_pre fs pk pk2 gp g in
             (* fun() *)
             let '(o, g3) := match d with
                             | DIHook => match hook_call g2 with (Some v, g') => (OPanic v, g') | (None, g') => (ONormal, g') end
                             | DIFun f i0 => go fuel' P fx (TCallF f i0) g2
                             end in
-            let g4 := upd_run (pop_defer saved_dof saved_isdefer) g3 in     (* deferred popDefer *)
+            (* deferred popDefer, then (fix C07-1) deferred restorePanic(run, run.Panic, run.PanicFun) - arguments evaluated on entry *)
+            let g4 := upd_run (fun r => let r1 := pop_defer saved_dof saved_isdefer r in
+                                        if fx then set_panicv saved_pv (set_panic_fun saved_pf r1) else r1) g3 in
             match o with
             | OFuel => (OFuel, g3)
             | OPanic v =>    (* panicking2 stays true; Go goes on unwinding *)
